@@ -5,7 +5,7 @@ from pyvc.contracts import contract, oracle, ghost, Loop, Raises, shape, trusted
 from contracts.runs_common import R, M
 from contracts import prop
 
-P = ["C01", "C02", "C09", "C12", "C13", "C15", "C18"]
+P = ["C01", "C02", "C03", "C09", "C12", "C13", "C15", "C18"]
 SYS = {"sys": ("singleton", "SysModule")}
 
 # selection (tags / name) of a scenario: pure functions of the scenario and the configuration
@@ -167,6 +167,9 @@ contract(M + "Scenario.run", props=P,
                  "implies(not %s and not old(G_ctx_aborted), forall(lambda k: implies(0 <= k < len(%s), %s[k].status == Status.skipped)))"
                  % (SEL0, STEPS, STEPS),
              "no-hooks-in-dry-run": "implies(runner.config.dry_run, G_nhooks == old(G_nhooks))",
+             # ---- C03: statuses depend only on the latest run -----------------------------------------
+             "own-hook-flag-reflects-this-run-only (not an earlier attempt)":
+                 "implies(self.hook_failed, G_bad > old(G_bad))",
              # ---- C02 ---------------------------------------------------------------------------
              "dry-run-calls-no-step-function": "implies(runner.config.dry_run, G_ncalls == old(G_ncalls))",
              "no-more-step-functions-than-steps": "G_ncalls - old(G_ncalls) <= len(%s)" % STEPS,
